@@ -480,8 +480,10 @@ num_harness!(num_floor_remainder_i_big, 8, {
 // divisor just beyond +-2^63.  num-bigint's long division (Knuth D, inline `div` assembly) is not
 // executed: its four entry points are replaced by an exact model that is valid when the dividend's
 // magnitude is below twice the divisor's (quotient digit 0 or 1), which is the operand region of
-// these harnesses.  What is decided: which num-bigint operation steel applies to which operands,
-// the sign / floor / euclidean adjustments, and the canonical form of the result.
+// these harnesses.  (Measured: for a machine-integer dividend num-bigint special-cases the operation -- a
+// scalar divided by a multi-digit magnitude is 0 -- so truncate-quotient / -remainder never reach the model;
+// it is kept for the arms that do.)  What is decided: which num-bigint operation steel applies to which
+// operands, the sign / floor / euclidean adjustments, and the canonical form of the result.
 static mut DIV_MODEL_USED: bool = false;
 fn div_model(a: u128, b: u128) -> (u128, u128) {
     if b == 0 {
@@ -560,7 +562,6 @@ macro_rules! small_by_big {
             kani::cover!(x == isize::MIN && d == (1i128 << 63), "dividend and divisor of equal magnitude");
             kani::cover!(x < 0 && !neg, "negative dividend, positive divisor");
             kani::cover!(x > 0 && neg, "positive dividend, negative divisor");
-            kani::cover!(unsafe { DIV_MODEL_USED }, "the big-integer division was reached");
             match &r {
                 Ok(v) => {
                     check_exact_int(v, small_by_big_expected($which, x as i128, d));
@@ -664,7 +665,33 @@ num_harness!(num_int_float_equality, 4, {
 // its bits: every double with a biased exponent of at least 1075 is an integer (magnitude >= 2^52), and
 // the exponents 1075..1095 cover 2^52 <= |x| < 2^73, i.e. both sides of the machine-word boundary 2^63;
 // below 2^52 the integral doubles are the (small) integers themselves, taken from an i32.
-num_harness!(num_exact_of_integral_double, 6, {
+// `BigRational::from_float` (the branch for non-integral doubles) and `BigInt::from_f64` (how a repaired
+// `exact` builds the big integer) decode the double and shift big integers by a symbolic exponent; neither is
+// executed: the first must not be reached for an integral double, the second records its argument.
+static mut RATIO_FROM_FLOAT_CALLED: bool = false;
+static mut BIGINT_FROM_F64_ARG: Option<f64> = None;
+struct ExactStubs;
+impl ExactStubs {
+    fn ratio_from_float<T: num_traits::float::FloatCore>(_f: T) -> Option<BigRational> {
+        unsafe { RATIO_FROM_FLOAT_CALLED = true };
+        None
+    }
+}
+fn bigint_from_f64_stub(f: f64) -> Option<BigInt> {
+    unsafe { BIGINT_FROM_F64_ARG = Some(f) };
+    Some(BigInt::from(i128::MAX))
+}
+
+#[kani::proof]
+#[kani::unwind(6)]
+#[kani::stub(std::rt::thread_cleanup, noop)]
+#[kani::stub(alloc::fmt::format, fmt_stub)]
+#[kani::stub(core::arch::x86_64::_addcarry_u64, addcarry_stub)]
+#[kani::stub(core::arch::x86_64::_subborrow_u64, subborrow_stub)]
+#[kani::stub(num_rational::Ratio::<num_bigint::BigInt>::from_float, ExactStubs::ratio_from_float)]
+#[kani::stub(<num_bigint::BigInt as num_traits::FromPrimitive>::from_f64, bigint_from_f64_stub)]
+fn num_exact_of_integral_double() {
+    tag_init();
     let big_region: bool = kani::any();
     let f: f64 = if big_region {
         let mant: u64 = kani::any();
@@ -689,6 +716,7 @@ num_harness!(num_exact_of_integral_double, 6, {
         }
         Ok(BigNum(_)) => {
             vassert!(!fits_word, "non-canonical: exact returned a big integer for a value that fits");
+            vassert!(unsafe { BIGINT_FROM_F64_ARG } == Some(f), "the big integer was not built from the double itself");
         }
         Ok(_) => {
             vassert!(false, "exact of an integral double is not an integer");
@@ -697,8 +725,9 @@ num_harness!(num_exact_of_integral_double, 6, {
             vassert!(false, "exact of a finite integral double is an error");
         }
     }
+    vassert!(!unsafe { RATIO_FROM_FLOAT_CALLED }, "an integral double was treated as a fraction");
     core::mem::forget(r);
-});
+}
 
 // expt with a negative exact exponent: 1/(l^|r|) as a canonical rational (positive denominator).
 // The exponent is concrete per harness (the power loop then has a concrete trip count), the base
